@@ -1,7 +1,7 @@
 """C04 — quoted expansions arrive byte-exact: never re-split, re-globbed or re-parsed."""
 import itertools
 from vlib import core
-from props import expand_lib as X
+from props import c04_lib as X
 
 PID = "C04"
 ENTRIES = {"xp": ("Expand.Entry", "entry_xp")}
